@@ -33,8 +33,8 @@ def run(module, cfg, env=None, workers='auto', simulate=None, depth=None, seed=N
         coverage=False, marker='@@', extra=None, cwd=None, deadlock=None, dfs=False):
     """Run TLC on spec/<module>.tla with spec/<cfg>. Returns TLCResult. Payload lines are the
     strings TLC prints through PrintT that start with `marker` (quotes stripped, unescaped)."""
-    meta = engine.sub_dir('tlc-%s-%d' % (module, int(time.time() * 1000) % 10**9))
-    cmd = ['java', '-XX:+UseParallelGC', '-Xmx8g', '-Xss64m']
+    meta = engine.sub_dir('tlc-%s-%d' % (os.path.basename(module).replace('.tla', ''), int(time.time() * 1000) % 10**9))
+    cmd = ['java', '-XX:+UseParallelGC', '-Xmx8g', '-Xss64m', '-DTLA-Library=' + SPEC]     # generated modules (absolute path) extend spec/ modules
     if dfs:
         cmd.append('-Dtlc2.tool.queue.IStateQueue=StateDeque')
     cmd += ['-cp', JARS, 'tlc2.TLC', '-metadir', meta, '-noGenerateSpecTE', '-config', os.path.join(SPEC, cfg)]
@@ -51,7 +51,7 @@ def run(module, cfg, env=None, workers='auto', simulate=None, depth=None, seed=N
         cmd += ['-deadlock']
     if extra:
         cmd += extra
-    cmd.append(os.path.join(SPEC, module + '.tla'))
+    cmd.append(module if os.path.isabs(module) else os.path.join(SPEC, module + '.tla'))
     e = dict(os.environ)
     if env:
         e.update({k: str(v) for k, v in env.items()})
